@@ -514,3 +514,59 @@ Fixpoint compaction_after_record (recorded : bool) (effs : list seffect) : bool 
   | EfCompactionScheduled :: r => recorded && compaction_after_record recorded r
   | _ :: r => compaction_after_record recorded r
   end.
+
+(* ------------------------------------------------------------------ *)
+(* on-disk state machines: the durability chain
+     snapshot recorded at i  =>  user state machine synced up to >= i  =>  log may be compacted <= i
+   rsm.StateMachine.sync() / concurrentSave() (GENERATED: the returns of sync() that precede
+   the user Sync(), the order prepare / sync / doSave). The user state machine keeps in-core
+   and synced state apart; a power cut keeps the synced state only. *)
+Definition sguard_fires (g : sguard) : bool :=
+  match g with
+  | SgNotOnDisk => false      (* this is an on-disk replica *)
+  | SgUnknown => true         (* a return the extractor does not know: Sync() may be skipped *)
+  end.
+(* sync(): what is durable afterwards, given the in-core index at that time *)
+Definition rsm_sync (incore synced : N) : N :=
+  if existsb sguard_fires rsm_sync_guards then synced else N.max synced incore.
+(* concurrentSave: (synced index, recorded snapshot index) afterwards; the snapshot index is
+   the applied index seen by prepare(), the in-core index can only have grown by the time of
+   sync() *)
+Fixpoint concurrent_save (steps : list csstep) (incore_prepare incore_sync : N)
+         (synced : N) (meta recorded : option N) : N * option N :=
+  match steps with
+  | [] => (synced, recorded)
+  | CsPrepare :: r => concurrent_save r incore_prepare incore_sync synced (Some incore_prepare) recorded
+  | CsSync :: r => concurrent_save r incore_prepare incore_sync (rsm_sync incore_sync synced) meta recorded
+  | CsDoSave :: r => concurrent_save r incore_prepare incore_sync synced meta meta
+  end.
+
+(* recorded runs of the real rsm.StateMachine over an instrumented on-disk state machine *)
+Inductive oev :=
+| OApply (i : N)     (* entry i applied and reported to the node (a proposal completes here) *)
+| OSync (i : N)      (* user Sync() with the in-core state at index i *)
+| OSnap (i : N)      (* a snapshot with index i was recorded *)
+| OCut (r : N)       (* power cut; the user state machine reopens at index r *)
+| OFail.             (* the reopened replica cannot recover *)
+Record ostate := mkOS { os_synced : N; os_snap : N }.
+(* 12 = snapshot recorded before the state machine was synced up to it; 13 = restart below
+   the recorded snapshot (entries reported applied and covered by the snapshot are lost);
+   15 = restart fails *)
+Definition odsm_step (st : ostate) (e : oev) : ostate * N :=
+  match e with
+  | OApply _ => (st, 0)
+  | OSync i => (mkOS (N.max (os_synced st) i) (os_snap st), 0)
+  | OSnap i => if os_synced st <? i then (st, 12)
+               else (mkOS (os_synced st) (N.max (os_snap st) i), 0)
+  | OCut r => if r <? os_snap st then (st, 13) else (mkOS r (os_snap st), 0)
+  | OFail => (st, 15)
+  end.
+Fixpoint odsm_run (st : ostate) (pos : N) (evs : list oev) : ostate * N * N :=
+  match evs with
+  | [] => (st, pos, 0)
+  | e :: r =>
+    let '(st', c) := odsm_step st e in
+    if c =? 0 then odsm_run st' (pos + 1) r else (st, pos, c)
+  end.
+Definition odsm_ok (evs : list oev) : bool :=
+  let '(_, _, c) := odsm_run (mkOS 0 0) 0 evs in c =? 0.
